@@ -7,12 +7,15 @@ contract here and covered by the bounded complement.  DESIGN §5 C54, App. B.2.
 from pyvc.contract import fn, cls
 
 C = "util/_collections.py::LRUCache."
-cls("LRUCache", fields={"capacity": "int", "_counter": "int", "_data": "dict", "size_alert": "v", "_mutex": "v", "threshold": "v"},
+cls("LRUCache", fields={"capacity": "int", "_counter": "int", "_data": "dict", "size_alert": "v", "_mutex": "obj:Lock", "threshold": "float",
+                        "size_threshold": "prop:" + C + "size_threshold"},
     rep=["all(is_tuple(dget(self._data, k), 3) and dget(self._data, k) is not None for k in keys(self._data))",
+         # an entry records the key it is stored under (eviction deletes by entry[0])
+         "all(dget(self._data, k)[0] is k for k in keys(self._data))",
          # each entry has its own counter cell, and no counter is ahead of the global one
          "forall(lambda a, b: implies(dhas(self._data, a) and dhas(self._data, b) and a is not b, dget(self._data, a)[2] is not dget(self._data, b)[2]))",
          "all(len(listof(dget(self._data, k)[2])) == 1 and intof(listof(dget(self._data, k)[2])[0]) <= self._counter for k in keys(self._data))"],
-    methods={n: C + n for n in ["_inc_counter", "get", "__getitem__", "__setitem__", "__delitem__", "_manage_size", "__len__"]})
+    methods={n: C + n for n in ["_inc_counter", "get", "__getitem__", "__setitem__", "__delitem__", "_manage_size", "__len__", "size_threshold"]})
 
 T = {"values:self._data": "tupleval", "item": "tupleval", "expr:item[2]": "list"}
 CTR = "intof(listof(dget(self._data, {k})[2])[0])"
@@ -31,11 +34,81 @@ fn(C + "get", cls="LRUCache", props=["C54"], types=T,
 fn(C + "__getitem__", cls="LRUCache", props=["C54"], types=T, raises={"KeyError": "not dhas(self._data, key)"},
    ensures=HIT, modifies=["self._counter", "contents(listof(dget(self._data, key)[2]))"], harness="lrucache.getitem")
 
-# assumed: eviction only removes entries, survivors are untouched (body uses sorted(); bounded complement checks which ones go)
-fn(C + "_manage_size", abstract=True, cls="LRUCache", params=["self"], returns="none", modifies=["contents(self._data)"],
-   ensures=["all(old(dhas(self._data, k)) and dget(self._data, k) is old(dget(self._data, k)) for k in keys(self._data))"],
-   notes="LRU eviction: survivors keep their entries")
-fn(C + "__setitem__", cls="LRUCache", props=["C54"], types=T, returns="none",
+# --- _manage_size under proof.  The mutex is an object with two ghost flags: `_g_locked` (held by anybody) and `_g_mine`
+# (held by this call's thread).  acquire(False)/release() are assumed contracts of threading.Lock.
+cls("Lock", fields={"_g_locked": "bool", "_g_mine": "bool"},
+    methods={"acquire": "threading::Lock.acquire@nonblocking", "release": "threading::Lock.release@ghost"})
+fn("threading::Lock.acquire@nonblocking", abstract=True, cls="Lock", params=["self", "blocking"], returns="bool",
+   ensures=["result == (not old(self._g_locked))", "self._g_locked", "self._g_mine == (old(self._g_mine) or result)"],
+   modifies=["self._g_locked", "self._g_mine"], notes="threading.Lock.acquire(False)")
+fn("threading::Lock.release@ghost", abstract=True, cls="Lock", params=["self"], returns="none",
+   requires=["self._g_mine"], ensures=["not self._g_locked", "not self._g_mine"], modifies=["self._g_locked", "self._g_mine"])
+# the user's size_alert hook: foreign code, may raise anything; assumed not to change the cache
+fn(C + "size_alert@env", abstract=True, params=["cache"], returns="none", modifies=[], may_raise={"BaseException": "True"},
+   notes="user hook; assumed not to modify the cache")
+# sorted(self._data.values(), key=itemgetter(2), reverse=True): a duplicate-free listing of the entries, newest counter first
+# (assumed contract of the builtins; stated over the dict so that no injectivity reasoning is left to the solver)
+CT = "intof(listof({e}[2])[0])"
+DISTINCT = "all(all(implies(i != j, by_counter[i][0] is not by_counter[j][0]) for i in range(len(by_counter))) for j in range(len(by_counter)))"
+fn("builtins::sorted@by_counter_desc", abstract=True, params=["d"],
+   types={"d": "dict", "values:d": "tupleval", "expr:result[i]": "tupleval", "expr:result[j]": "tupleval", "x": "tupleval"},
+   returns="seq",
+   requires=["all(dget(d, k)[0] is k for k in keys(d))"],
+   ensures=["len(result) == len(keys(d))", "no_dups(result)", DISTINCT.replace("by_counter", "result"),
+            "all(dhas(d, result[j][0]) and dget(d, result[j][0]) is result[j] for j in range(len(result)))",
+            "all(dget(d, k) in result for k in keys(d))",
+            "all(all(implies(i < j, " + CT.format(e="result[i]") + " >= " + CT.format(e="result[j]") + ") for i in range(len(result))) for j in range(len(result)))"],
+   modifies=[], notes="sorted() by the one-element counter list, descending (list comparison = comparison of the single int)")
+
+fn(C + "size_threshold", cls="LRUCache", props=["C54"], returns="float",
+   ensures=["result == self.capacity + self.capacity * self.threshold"], modifies=[])
+# retained entries are the most recently used: nothing evicted by this call is newer than anything it kept
+LRU = ("forall(lambda a, b: implies(old(dhas(self._data, a)) and not dhas(self._data, a) and dhas(self._data, b), "
+       "old(" + CTR.format(k="a") + ") <= old(" + CTR.format(k="b") + ")))")
+# inside one pruning pass: nothing evicted so far is newer than the entries that will be kept (the first `capacity` of the listing)
+LRU1 = ("forall(lambda a: implies(old(dhas(self._data, a)) and not dhas(self._data, a), "
+        "all(implies(j < self.capacity, old(" + CTR.format(k="a") + ") <= " + CT.format(e="by_counter[j]") + ") for j in range(len(by_counter)))))")
+# ... and eviction never goes below the capacity
+FLOOR_MIN = "ite(old(len(self._data)) < self.capacity, old(len(self._data)), self.capacity)"
+FLOOR = "len(self._data) >= " + FLOOR_MIN
+SORTED = ("all(all(implies(i < j, " + CT.format(e="by_counter[i]") + " >= " + CT.format(e="by_counter[j]") + ") for i in range(len(by_counter))) for j in range(len(by_counter)))")
+# on entry the calling thread does not hold the pruning lock (it is not re-entrant); the capacity is a size
+LOCKFREE = ["not self._mutex._g_mine", "self.capacity >= 0"]
+LOCK_BACK = ["not self._mutex._g_mine", "self._mutex._g_locked == old(self._mutex._g_locked)"]
+SURV = "all(old(dhas(self._data, k)) and dget(self._data, k) is old(dget(self._data, k)) for k in keys(self._data))"
+BOUND = "self.capacity + self.capacity * self.threshold"
+fn(C + "_manage_size", cls="LRUCache", props=["C54"], returns="none",
+   types=dict(T, by_counter="seq", size_alert="bool", **{"expr:by_counter[_i]": "tupleval", "expr:by_counter[j]": "tupleval", "expr:by_counter[i]": "tupleval"}),
+   callees={"self.size_alert": dict(fn=C + "size_alert@env", args=["self"]),
+            "sorted": dict(fn="builtins::sorted@by_counter_desc", args=["self._data"],
+                           expect="sorted(self._data.values(), key=operator.itemgetter(2), reverse=True)"),
+            "self._mutex.acquire": dict(fn="threading::Lock.acquire@nonblocking", recv="self._mutex", args=["False"]),
+            "self._mutex.release": dict(fn="threading::Lock.release@ghost", recv="self._mutex", args=[])},
+   requires=LOCKFREE,
+   invariant={
+       0: ["self._mutex._g_mine and self._mutex._g_locked", SURV, LRU, FLOOR],
+       1: ["self._mutex._g_mine and self._mutex._g_locked", SURV, "no_dups(by_counter)", "self.capacity >= 0", DISTINCT,
+           # entries by_counter[capacity : capacity + _i] are gone, every other listed entry is still stored under its key
+           "all(dhas(self._data, by_counter[j][0]) == (j < self.capacity or j >= self.capacity + _i) for j in range(len(by_counter)))",
+           "all(implies(dhas(self._data, by_counter[j][0]), dget(self._data, by_counter[j][0]) is by_counter[j]) for j in range(len(by_counter)))",
+           "all(dget(self._data, k) in by_counter for k in keys(self._data))",
+           "len(self._data) == len(by_counter) - _i",
+           SORTED, LRU1, "len(by_counter) >= " + FLOOR_MIN],
+   },
+   loop_modifies={0: ["contents(self._data)"], 1: ["contents(self._data)"]},
+   ensures=LOCK_BACK + [
+       SURV, LRU, FLOOR,
+       # the size bound: when this call held the lock, the cache is within capacity * (1 + threshold) afterwards
+       "implies(not old(self._mutex._g_locked), not (len(self._data) > " + BOUND + "))",
+   ],
+   may_raise={"BaseException": "True"},
+   # a raising size_alert hook must not leave the lock held (the cache would never be pruned again), and loses nothing
+   exc_ensures={"BaseException": LOCK_BACK + [SURV]},
+   # concrete-only: which entries go -- after a pruning pass exactly the `capacity` most recently used remain
+   c_ensures=["implies(not old(self._mutex._g_locked) and old(len(self._data)) > " + BOUND + ", len(self._data) == self.capacity and "
+              "all(all(implies(not dhas(self._data, a), old(dget(self._data, a))[2][0] < dget(self._data, b)[2][0]) for a in old(keys(self._data))) for b in keys(self._data)))"],
+   modifies=["contents(self._data)", "self._mutex._g_locked", "self._mutex._g_mine"], harness="lrucache.manage_size")
+fn(C + "__setitem__", cls="LRUCache", props=["C54"], types=T, returns="none", requires=LOCKFREE,
    ensures=[
        # the stored key carries the value and the NEWEST counter (most recently used), unless eviction removed it
        "implies(dhas(self._data, key), dget(self._data, key)[1] is value and dget(self._data, key)[0] is key and "
@@ -46,7 +119,10 @@ fn(C + "__setitem__", cls="LRUCache", props=["C54"], types=T, returns="none",
        ],
    # the size manager always runs after a store (it is what bounds the cache)
    s_ensures=["called('self._manage_size')"],
-   modifies=["self._counter", "contents(self._data)"], harness="lrucache.setitem")
+   # a failing size_alert hook propagates; the store itself has happened and the lock is free again
+   may_raise={"BaseException": "True"},
+   exc_ensures={"BaseException": ["not self._mutex._g_mine", "self._mutex._g_locked == old(self._mutex._g_locked)"]},
+   modifies=["self._counter", "contents(self._data)", "self._mutex._g_locked", "self._mutex._g_mine"], harness="lrucache.setitem")
 fn(C + "__delitem__", cls="LRUCache", props=["C54"], types=dict(T, __v="v"), returns="none", raises={"KeyError": "not dhas(self._data, __v)"},
    ensures=["not dhas(self._data, __v)",
             "forall(lambda q: implies(q is not __v, dhas(self._data, q) == old(dhas(self._data, q)) and implies(dhas(self._data, q), dget(self._data, q) is old(dget(self._data, q)))))"],
